@@ -208,6 +208,7 @@ func (fr *Frame) execInstr(st *State, instr ssa.Instruction) {
 			fr.assume(st, nn)
 		}
 		fr.store(st, p, x.Val.Type(), v)
+		fr.ghostOnAssign(st, x)
 	case *ssa.UnOp:
 		fr.execUnOp(st, x)
 	case *ssa.BinOp:
@@ -593,3 +594,37 @@ func (fr *Frame) execTypeAssert(st *State, x *ssa.TypeAssert) {
 	fr.setReg(x, res)
 }
 
+
+// ghostOnAssign runs the ghost updates attached to an assignment of a named local.
+func (fr *Frame) ghostOnAssign(st *State, x *ssa.Store) {
+	if fr.parent != nil || fr.fc == nil || len(fr.fc.GhostUps) == 0 {
+		return
+	}
+	a, ok := x.Addr.(*ssa.Alloc)
+	if !ok || a.Comment == "" {
+		return
+	}
+	for _, gu := range fr.fc.GhostUps {
+		if gu.Local != a.Comment {
+			continue
+		}
+		if gu.Loop != 0 && !fr.blockInLoop(x.Block(), gu.Loop) {
+			continue
+		}
+		sc := fr.loopScope(st, st.alloc)
+		v := fr.evalExpr(sc, gu.E)
+		if old, ok := st.ghost[gu.Name]; ok {
+			v = fr.coerce(v, old)
+		}
+		st.ghost[gu.Name] = v
+	}
+}
+
+func (fr *Frame) blockInLoop(b *ssa.BasicBlock, ordinal int) bool {
+	for _, li := range fr.loops {
+		if li.ordinal == ordinal && li.blocks[b] {
+			return true
+		}
+	}
+	return false
+}
